@@ -79,20 +79,23 @@ def _shard(args):
     work, name, base, rows = args
     text = ("From Coq Require Import List.\nFrom Verif Require Import Syntax Rewrite Opt OptExec.\nImport ListNotations.\n"
             "Definition cases : list ocase := [\n%s\n].\nDefinition M := Eval vm_compute in omismatches cases.\nPrint M.\n"
-            "Definition K := Eval vm_compute in length (filter ocase_ok cases).\nPrint K.\n" % ";\n".join(rows))
+            "Definition K := Eval vm_compute in length (filter ocase_ok cases).\nPrint K.\n"
+            "Definition K2 := Eval vm_compute in length (filter ocase_e2e cases).\nPrint K2.\n" % ";\n".join(rows))
     rc, out = C.coq_eval(work, name, text)
     if rc != 0:
         raise RuntimeError("coqc failed on optimiser cases: " + out[-3000:])
     m = re.search(r"M\s*=\s*(\[.*?\])\s*:\s*list", out, re.S)
-    k = re.search(r"K\s*=\s*(\d+)", out)
-    return [(base + int(a), int(b)) for a, b in re.findall(r"\((\d+),\s*(\d+)\)", m.group(1))], int(k.group(1))
+    k = re.search(r"\bK\s*=\s*(\d+)", out)
+    k2 = re.search(r"\bK2\s*=\s*(\d+)", out)
+    return [(base + int(a), int(b)) for a, b in re.findall(r"\((\d+),\s*(\d+)\)", m.group(1))], int(k.group(1)), int(k2.group(1))
 
 
 def compare(work, rows, shard=120):
     jobs = [(work, "ocases_%d" % (i // shard), i, rows[i:i + shard]) for i in range(0, len(rows), shard)]
-    mism, ok = [], 0
+    mism, ok, ok2 = [], 0, 0
     with ThreadPoolExecutor(max_workers=12) as ex:
-        for r, k in ex.map(_shard, jobs):
+        for r, k, k2 in ex.map(_shard, jobs):
             mism.extend(r)
             ok += k
-    return sorted(mism), ok
+            ok2 += k2
+    return sorted(mism), ok, ok2
